@@ -61,6 +61,17 @@ def run_proxy(ctx):
         r = ctx.tlc_mc("CircuitBreakerPool_MC", mc_cfg(8, 6) if ctx.quick else mc_cfg(10, 8),
                        label="pool-level request protocol over the breaker contract", timeout=900, workers=4 if ctx.quick else None)
         ctx.log("pool-level contract: %d distinct states" % r.distinct)
+    if ctx.phase("pmc2"):
+        # two pools naming one policy: each has its own breaker (and the model can tell a shared one apart)
+        cfg2 = ("SPECIFICATION Spec\nCONSTANTS\n  Policies <- TwoPoolPolicies\n  MaxNow = %d\n  MaxCalls = %d\n  MaxAttempts = 1\n"
+                "  Shared = %s\nVIEW allview\nINVARIANTS TypeOK OwnWindow\nPROPERTIES OwnHistory Independent\n")
+        r = ctx.tlc_mc("CircuitBreakerPools_MC", cfg2 % (((2, 3) if ctx.quick else (4, 4)) + ("FALSE",)),
+                       label="two pools naming one policy: one breaker each", timeout=900, workers=4 if ctx.quick else None)
+        ctx.log("two pools, one policy: %d distinct states" % r.distinct)
+        r = ctx.tlc_mc("CircuitBreakerPools_MC", cfg2 % (3, 3, "TRUE"), label="negative control: one breaker shared by the pools of a policy",
+                       expect_ok=False, count=False, workers=2, timeout=600)
+        if r.violated not in ("OwnHistory", "OwnWindow"):
+            ctx.inconclusive("negative control (breaker shared by the pools naming one policy) was not rejected by TLC: %s" % r.error)
     if not ctx.phase("ptv"):
         return
     n, steps = (32, 30) if ctx.quick else (240, 50)
